@@ -9,6 +9,7 @@
 #include <map>
 #include <set>
 #include <sstream>
+#include <stdexcept>
 
 #include "corecel/sys/ActionRegistry.hh"
 #include "celeritas/global/CoreState.hh"
@@ -54,6 +55,11 @@ class Collector final : public StepInterface
     StepSelection selection() const final { return StepSelection::all(); }
     void process_steps(HostStepState hs) final
     {
+        if (throw_in > 0 && ++deliveries == throw_in)
+        {
+            throw_in = 0;
+            throw std::runtime_error("vhist: user step action throws inside the step");
+        }
         auto const& d = hs.steps.data;
         for (size_type i = 0; i < d.size(); ++i)
         {
@@ -89,6 +95,14 @@ class Collector final : public StepInterface
     }
     void process_steps(DeviceStepState) final {}
     std::vector<StepRec> steps;
+    // "throw" operations: the k-th delivery after arming throws from inside the step
+    long throw_in = 0;
+    long deliveries = 0;
+    void arm(long k)
+    {
+        throw_in = k;
+        deliveries = 0;
+    }
 
   private:
     ActionRegistry const* reg_;
@@ -209,6 +223,30 @@ int main(int argc, char** argv)
                 stepper.reseed(UniqueEventId{static_cast<UniqueEventId::size_type>(ev)});
                 coll->steps.clear();
                 long k = 0, kmax = (kind == "abort") ? long(op["k"]) : 1000000;
+                if (kind == "throw")
+                {
+                    // an exception leaves the k-th step half way; the driver resets the state
+                    coll->arm(long(op["k"]));
+                    bool threw = false;
+                    try
+                    {
+                        StepperResult rt = stepper(make_span(prims));
+                        ++k;
+                        while (rt && k < 200000)
+                        {
+                            rt = stepper();
+                            ++k;
+                        }
+                    }
+                    catch (std::exception const&)
+                    {
+                        threw = true;
+                    }
+                    coll->arm(0);
+                    stepper.reset_state();
+                    events.push_back({{"e", "Aborted"}, {"run", runidx}, {"ev", ev}, {"after", int(k)}, {"threw", threw}});
+                    continue;
+                }
                 StepperResult r = stepper(make_span(prims));
                 ++k;
                 while (r && k < kmax)
